@@ -1,13 +1,13 @@
 """C10 — remote helpers build messages the target contract accepts and routes identically."""
 import random
 
-from .. import casing, common as c, corpus, l2, translate
+from .. import casing, common as c, corpus, l2, translate, rs2lean
 from . import C02
 
 THEOREMS = [("Sylvia.Thm.C10", "C10." + t) for t in
             ["executor_msg_fields", "executor_routes", "querier_routes", "builder_defaults", "build2_adds_salt", "last_writer_wins",
              "setters_commute", "setters_fold", "admin_helpers"]] + \
-           [("Sylvia.Thm.C02", "C02.dispatch_exact"), ("Sylvia.Thm.C05Gen", "C05.parts_faithful_closed")]
+           [("Sylvia.Thm.C02", "C02.dispatch_exact"), ("Sylvia.Thm.C05Gen", "C05.parts_faithful_closed"), ("Sylvia.Thm.PublishedFn", "PublishedFn.serde_snake_case_eq")]
 
 
 def hx(s):
@@ -21,6 +21,11 @@ def run(ctx):
     ctx.assumptions += ["the handle is typed by the concrete contract and, for interface methods, also by `dyn Interface<Error = ..>`",
                         "the smart query is answered by the contract's own query entry point through a recording mock querier"]
     translate.regenerate()
+    # function translator: serde_snake_case of sylvia-derive (the rule behind the published name lists) -> Extracted/CasingFns.lean
+    casing_problems = rs2lean.regenerate("casing")
+    ctx.cov["function_translator_casing"] = {"source": "sylvia-derive/src/types/msg_variant.rs::serde_snake_case", "problems": casing_problems}
+    if casing_problems:
+        ctx.obligation_failed("function-translator(casing)", "; ".join(casing_problems)[:1500])
     c.prove(ctx, sorted({m for m, _ in THEOREMS}), THEOREMS)
     progs, exes = l2.get_corpus(ctx)
     rng = random.Random(ctx.seed * 41 + 10)
